@@ -459,6 +459,7 @@ func (H) Execute(t *testing.T, plan *simkit.Plan, run *simkit.Run) {
 			time.Sleep(time.Duration(s.DelayMs) * time.Millisecond)
 		}
 		run.Step()
+		run.AbandonIfWallOver()
 		pi := ((s.Peer % n) + n) % n
 		switch s.Op {
 		case "pin", "unpin":
